@@ -136,6 +136,9 @@ pub struct Process {
     /// Process sources of the current select whose state (finished or not) has not been reported
     /// since that select began. The select's sources are not evaluated while this is non-empty.
     pub await_unanswered: HashSet<ProcessId>,
+    /// Awaited processes reported as failed, with their error. A failure is a select source like
+    /// a result: it takes effect when the select reaches it in written order, not on delivery.
+    pub await_failures: HashMap<ProcessId, crate::error::Error>,
 }
 
 impl Process {
@@ -150,6 +153,7 @@ impl Process {
             select_state: None,
             awaiting: HashMap::new(),
             await_unanswered: HashSet::new(),
+            await_failures: HashMap::new(),
         }
     }
 }
